@@ -62,6 +62,8 @@ class Interp:
                     env.update(e2)
                     return True
             return False
+        if k == 'PTup' and not pat['subs']:
+            return val == ('#unit',) or val == ('#tup',)
         if k == 'PTup':
             if not (isinstance(val, tuple) and val and val[0] == '#tup' and len(val) - 1 == len(pat['subs'])):
                 raise Undecided('tuple pattern against %r' % (val,))
